@@ -33,6 +33,16 @@ def core(ctx):
             for ct in ("0", "1"):
                 n2 = [list(x) for x in nodes[:-1]] + [["k", ct, [], False], ["g", t, [f"i{j}" for j in range(k)] + ["k"], True]]
                 yield {"spec": {"name": "c", "nodes": n2, "bbtypes": [], "insts": []}}
+    # deep chains (one logic level per gate), stored drivers-first and outputs-first
+    for depth in (300, 1500):
+        nodes = [["a", "input", [], False], ["b", "input", [], False]]
+        prev = "a"
+        for i in range(depth):
+            t_ = ["not", "and", "buf", "or", "xor"][i % 5]
+            nodes.append([f"d{i}", t_, [prev] if t_ in ("not", "buf") else [prev, "b"], i == depth - 1])
+            prev = f"d{i}"
+        yield {"spec": {"name": "deep", "nodes": nodes, "bbtypes": [], "insts": []}}
+        yield {"spec": {"name": "deep", "nodes": nodes[::-1], "bbtypes": [], "insts": []}}
     for t in S.UNARY:
         yield {"spec": {"name": "c", "nodes": [["a", "input", [], False], ["g", t, ["a"], True]], "bbtypes": [], "insts": []}}
         yield {"spec": {"name": "c", "nodes": [["a", "1", [], False], ["g", t, ["a"], True]], "bbtypes": [], "insts": []}}
